@@ -112,7 +112,12 @@ Allocate(D, st) ==
        /\ \A d \in D : d.tid >= nextTx /\ d.fee >= 0 /\ d.out >= 0 /\ d.ins # {}
        /\ FreshMade(mades)
        /\ \A d1, d2 \in D : d1 # d2 => d1.ins \cap d2.ins = {} /\ Ids(d1.made) \cap Ids(d2.made) = {}
-       /\ txs' = [t \in TxIds \cup tids |-> IF t \in TxIds THEN txs[t] ELSE D2tx(CHOOSE d \in D : d.tid = t)]
+       \* an input taken over from a transaction whose release is in flight shows that the release
+       \* already happened for it: it now belongs to the new request (RelEnd must not free it again)
+       /\ txs' = [t \in TxIds \cup tids |->
+                    IF t \in TxIds
+                    THEN (IF txs[t].st = "rlsing" THEN [txs[t] EXCEPT !.ins = @ \ UNION {d.ins : d \in D}] ELSE txs[t])
+                    ELSE D2tx(CHOOSE d \in D : d.tid = t)]
        /\ locked' = Lock(UNION {d.ins : d \in D})
        /\ nextId' = BumpId(mades)
        /\ nextTx' = 1 + MaxOf(tids)
@@ -339,9 +344,15 @@ Mine ==
     /\ reply' = NoReply
     /\ UNCHANGED <<cfg, now, nextId, nextTx>>
 
-\* an empty block paying x to the wallet: a new immature output; the pool is untouched
+\* an empty block paying x to the wallet: a new immature output; the pool is untouched.
+\* (Such a block is only mined while no v2 transaction -- pooled or still with its caller --
+\* spends an unconfirmed output: chain.Manager cannot carry a v2 transaction with an unconfirmed
+\* parent across a block that leaves the parent unconfirmed; it drops it from the pool and
+\* refuses to rebase it.  Pool / rebasing policy, outside C07.)
+NoEphemeralV2 == \A t \in TxIds : txs[t].ver = 2 => txs[t].ins \subseteq DOMAIN owned
 Reward(x, rid) ==
     /\ x > 0 /\ rid >= nextId
+    /\ NoEphemeralV2
     /\ owned' = [i \in DOMAIN owned \cup {rid} |-> IF i = rid THEN [v |-> x, m |-> Delay] ELSE Age(owned[i])]
     /\ nextId' = rid + 1
     /\ act' = [op |-> "Reward", v |-> x]
@@ -393,7 +404,7 @@ NextFund ==
               /\ SumV(sel) >= amt
               /\ FundOK(ver, amt, unc, [tid |-> nextTx, ver |-> ver, ins |-> sel, out |-> amt, fee |-> 0,
                                         made |-> ChangeOf(SumV(sel) - amt, nextId)])
-        \/ \E sel \in (SUBSET May(unc)) \ {{}} : \E x \in sel :
+        \/ DevDefragReselect /\ \E sel \in (SUBSET May(unc)) \ {{}} : \E x \in sel :
               /\ SumV(sel) + Val(x) >= amt
               /\ FundDup(ver, amt, unc, [tid |-> nextTx, ver |-> ver, ins |-> sel, out |-> amt, fee |-> 0,
                                          made |-> ChangeOf(SumV(sel) + Val(x) - amt, nextId)], x)
